@@ -408,8 +408,8 @@ func genChunks(t *rapid.T, total int) []int {
 func genCase(t *rapid.T) Case {
 	c := Case{TruncateAt: -1}
 	c.Codec = rapid.SampledFrom([]string{"proto", "proto", "json", "json", "body"}).Draw(t, "codec")
-	c.InitCap = rapid.SampledFrom([]int{0, 1, 5, 64, 4096}).Draw(t, "initCap")
-	c.CarryCap = rapid.SampledFrom([]int{0, 1, 5, 64, 4096}).Draw(t, "carryCap")
+	c.InitCap = rapid.SampledFrom([]int{0, 1, 5, 64, 1024, 1500, 2048, 3000, 4096}).Draw(t, "initCap")
+	c.CarryCap = rapid.SampledFrom([]int{0, 1, 5, 64, 1024, 2048, 4096}).Draw(t, "carryCap")
 	total := 0
 	if c.Codec == "body" {
 		c.Limit = rapid.SampledFrom([]int{1, 2, 7, 8, 64, 256}).Draw(t, "blimit")
@@ -455,6 +455,16 @@ func genCase(t *rapid.T) Case {
 		maxLen := 0
 		for i := 0; i < n; i++ {
 			m := genMsg(t, c.Codec)
+			if c.Codec == "proto" && c.InitCap >= 64 && rapid.IntRange(0, 2).Draw(t, "relCap") == 0 {
+				// a size placed relative to the buffer the caller hands in (the buffer must grow by a
+				// factor between 1 and 2, where the growth policy changes its step)
+				k := c.InitCap
+				n := rapid.SampledFrom([]int{k - 1, k, k + 1, k + k/4 - 1, k + k/4, k + k/4 + 1, k + k/2, 2*k - 1, 2 * k, 2*k + 1, 2*k + k/4 + 1}).Draw(t, "relSize")
+				m = make([]byte, n)
+				for j := range m {
+					m[j] = byte(j*11 + i)
+				}
+			}
 			c.Msgs = append(c.Msgs, m)
 			total += len(m) + 3
 			if len(m) > maxLen {
